@@ -100,7 +100,7 @@ pub fn judge_line(
         }
         return;
     }
-    if e.last_was_pure_deletion && (Some(obs) == e.prev_last || obs == Actor::Human) {
+    if e.last_was_pure_deletion && (e.prev_chain.contains(&obs) || obs == Actor::Human) {
         // F14: intra-line pure deletion reverts to the previous author
         rep.violate(
             format!("{pid}:pure-token-deletion-reverts-to-previous-author"),
